@@ -19,6 +19,9 @@ MISSING = [
 ALGS = [("so3", "SO3", 3, "SO3Quat"), ("se3", "SE3", 6, "SE3Quat"), ("se23", "SE23", 9, "SE23Quat")]
 
 
+AXIS_TURN = [0]
+
+
 def relevant(fn):
     return "jacobian" in fn or fn.split(".")[-1] in ("left_Q", "right_Q", "ad", "Ad", "exp", "toMatrix")
 
@@ -42,7 +45,8 @@ def search(ctx):
             found.append({"case": case, "what": what, "inputs": inputs, "error": float(err), "tolerance": tol,
                           "obligation": "search:" + case})
     reps = 2 if ctx.tier == "quick" else 25
-    mags = [0.0, 1e-8, 1e-3, 0.02, 0.0316, 0.0317, 0.0633, 0.4, 1.3, 2.7, 3.1, 3.6, 5.0, 6.0]
+    mags = [0.0, 1e-8, 1e-3, 0.02, 0.0316, 0.0317, 0.0633, 0.4, 1.3, 2.3, 2.7, 3.1, 3.6, 4.0, 5.0, 6.0]
+    AXIS_TURN[0] = 0
     for alg, mod, k, grp in ALGS:
         Jl = nl.F(mod, alg + ".left_jacobian"); Jli = nl.F(mod, alg + ".left_jacobian_inv")
         Jr = nl.F(mod, alg + ".right_jacobian"); Jri = nl.F(mod, alg + ".right_jacobian_inv")
@@ -52,6 +56,12 @@ def search(ctx):
             for r in range(reps):
                 x = rng.standard_normal(k) * 1.2
                 x[k - 3:] = nl.rand_axis(rng) * mag
+                if r == 1 and mag > 2.0:
+                    # axis dominated by one coordinate (either sign): with angles of 120..240 degrees these select the three
+                    # trace <= 0 branches of the matrix -> quaternion extraction that se_2(3)'s exp goes through
+                    ax = rng.standard_normal(3) * 0.15; ax[AXIS_TURN[0] % 3] = 1.0 if (AXIS_TURN[0] // 3) % 2 == 0 else -1.0
+                    AXIS_TURN[0] += 1
+                    x[k - 3:] = ax / np.linalg.norm(ax) * mag
                 L, Li, Rj, Ri = Jl(x), Jli(x), Jr(x), Jri(x); ev += 1
                 inp = {"x": x.tolist(), "rotation_magnitude": mag}
                 sc = 1 + np.max(np.abs(L)) * np.max(np.abs(Li))
